@@ -445,7 +445,15 @@ def rule_R5_R6_R7(ctx):
                     return c[2]
         return None
 
-    sorts = Q.calls(gen, ["sort_unstable", "::sort", "sort_by", "::reverse", "::dedup"])
+    sorts = Q.calls(gen, ["sort_unstable", "::sort", "sort_by", "::reverse"])
+    # the lists are fingerprinted element for element (the count fields of JA4_a are their lengths): nothing may drop or merge entries
+    # except the documented removals (GREASE everywhere, SNI and ALPN ids in the sorted extension list - checked by retain:sni-alpn)
+    from ..engine import lists as L
+    for xb in L.with_closures(P, gen):
+        for blk, t in Q.calls(xb, ["::dedup", "dedup_by", "::truncate", "::pop", "::drain", "::split_off", "swap_remove", "Vec::<T, A>::remove", "::skip", "::take", "::step_by"]):
+            ctx.fail("R5", "drops-elements:%s" % T.short(callee_of(t)).split("::")[-1],
+                     "%s is applied to a fingerprint list in generate_ja4_with_order: entries of the ClientHello (a repeated cipher or extension id) disappear from "
+                     "JA4_b / JA4_c while the count in JA4_a still includes them - the result is not the specification's value" % T.short(callee_of(t)), ctx.loc(xb, blk))
     n = 0
     for blk, t in sorts:
         a = Q.call_args(gen, S, blk, t)
